@@ -184,6 +184,11 @@ def run(ctx, rep):
         rep.fail('R11.7', 'engine', 'slot analysis crashed: %r' % (e,), status='undecided')
     check_iterator(prog, rep)
     try:
+        check_front_end(prog, rep)
+    except Exception as e:
+        import traceback; traceback.print_exc()
+        rep.fail('R11.9', 'engine', 'front end analysis crashed: %r' % (e,), status='undecided')
+    try:
         check_subbyte_values(prog, rep, impls)
     except Exception as e:
         import traceback; traceback.print_exc()
@@ -757,3 +762,67 @@ def check_subbyte_values(prog, rep, impls):
             lv_ = writes[0][1]
             olds = [n for n in walk(writes[0][2]) if n[0] == "payload" and n[1][0] == "call" and n[1][1].split("::")[-1] in ("get", "get_mut")]
             rep.check(bool(olds) and all(strip_refs(o) == strip_refs(lv_) for o in olds), "R11.8", "%s:store:same-byte" % raw, "store must read-modify-write one and the same byte", at=store.span, fn=store.path, nontrivial=False)
+
+
+def check_front_end(prog, rep):
+    """R11.9 the public RawData::load / RawData::store hand the caller's (self,) buffer and index to the private
+    LoadStore implementation and return its outcome on every path.  A path that answers on its own is accepted only when
+    its conditions make the answer the one LoadStore would give: `Ok` without a store needs `load(buffer, index)` to be
+    `Some(self)` (the value is already there), `Err` / `None` needs `load(buffer, index)` to be `None` (out of range)."""
+    from mirq.paths import passes_result
+    RAWDATA = "embedded_graphics_core::pixelcolor::raw::RawData"
+    P_ = Paths(prog, inline=lambda g: prog.is_new(g))
+    n = 0
+    for impl in sorted(prog.impls_of_trait(RAWDATA), key=lambda i: ty_str(i["self_ty"])):
+        if not (isinstance(impl["self_ty"], dict) and "adt" in impl["self_ty"]):
+            continue
+        raw = impl["self_ty"]["adt"].split("::")[-1]
+        for nm, params in (("load", ("buffer", "index")), ("store", ("self", "buffer", "index"))):
+            if nm not in impl["fns"]:
+                rep.fail("R11.9", "%s:%s" % (raw, nm), "RawData impl without `%s`" % nm, status="undecided")
+                continue
+            f = prog.fns[impl["fns"][nm]]
+            key = "%s:%s" % (raw, nm)
+            try:
+                summs = P_.of(f)
+            except Unsupported as e:
+                rep.fail("R11.9", key, "cannot summarise: %s" % e, status="undecided", at=f.span, fn=f.path)
+                continue
+            n += 1
+
+            def is_ls(t, which):
+                return (t[0] == "call" and "LoadStore" in t[1] and t[1].endswith("::" + which) and raw in t[1]
+                        and tuple(strip_refs(a) for a in t[3]) == tuple(("param", i + 1, p) for i, p in enumerate(("buffer", "index") if which == "load" else ("self", "buffer", "index"))))
+
+            def is_probe(t):
+                """load(buffer, index) of the same raw type, through either trait"""
+                t = strip_refs(t)
+                if t[0] != "call" or not t[1].endswith("::load") or raw not in t[1] or len(t[3]) != 2:
+                    return False
+                a = [strip_refs(x) for x in t[3]]
+                return a[0][0] == "param" and a[0][2] == "buffer" and a[1][0] == "param" and a[1][2] == "index"
+            bad = None
+            for sm in summs:
+                nodes = [x for t in [sm.ret] + [e[1] for e in sm.effects if e[0] == "call"] + [fc[1] for fc in sm.facts if len(fc) > 1 and isinstance(fc[1], tuple)]
+                         for x in walk(t) if is_ls(x, nm)]
+                if nodes and any(passes_result(sm, nd) for nd in nodes):
+                    continue
+                if nodes:
+                    bad = "a path calls LoadStore::%s but does not return its outcome (returns %s)" % (nm, show(sm.ret, maxd=4))
+                    break
+                probe = {tuple(fc[2]) for fc in sm.facts if fc[0] == "variant" and is_probe(fc[1])}
+                vo = variant_of(sm.ret)
+                v = vo[1] if vo else None
+                if v in ("Err", "None") and probe == {("None",)} and not sm.writes():
+                    continue
+                if nm == "store" and v == "Ok" and probe == {("Some",)} and not sm.writes() and any(
+                        fc[0] == "eq" and {strip_refs(fc[1])[0], strip_refs(fc[2])[0]} == {"param", "payload"}
+                        and any(strip_refs(x) == ("param", 1, "self") for x in fc[1:3])
+                        and any(strip_refs(x)[0] == "payload" and is_probe(strip_refs(x)[1]) for x in fc[1:3]) for fc in sm.facts):
+                    continue
+                bad = "a path returns %s without consulting LoadStore::%s(%s) [conditions: %s]" % (show(sm.ret, maxd=4), nm, ", ".join(params), "; ".join(show_fact(fc) for fc in sm.facts) or "none"
+                                                                                                   )
+                break
+            rep.check(bad is None, "R11.9", key, "RawData::%s must return what LoadStore::%s(%s) returns: %s" % (nm, nm, ", ".join(params), bad), at=f.span, fn=f.path,
+                      status="refuted" if bad and "without consulting" in bad and "is None" in bad else "undecided" if bad else None)
+    rep.floor("R11.9", "RawData front ends", n, 14)
